@@ -43,6 +43,12 @@ fn main() {
         "pathguard" => fsops::engine_pathguard(&rt, cases, &mut out),
         "ckpt" => fsops::engine_ckpt(&rt, cases, &mut out),
         "surface" => surface::engine_surface(cases, &mut out),
+        "runs" => {
+            for case in cases {
+                let r = rt.block_on(async { runs::run_scripted(&case, false).await });
+                out.write(&r.result);
+            }
+        }
         other => {
             eprintln!("unknown engine {other}");
             std::process::exit(2);
